@@ -1457,16 +1457,21 @@ impl KotoVm {
                     if !op.is_callable() {
                         return unexpected_type("Callable function from @next", &op);
                     }
-                    // The return value will be retrieved from execute_instructions
-                    self.call_overridden_op_1(None, iterable_register, op)?;
-                    self.frame_mut().execution_barrier = true;
-                    match self.execute_instructions() {
-                        Ok(Null) => None,
-                        Ok(output) => Some(output),
-                        Err(error) => {
-                            self.pop_frame(KValue::Null)?;
-                            return Err(error);
-                        }
+                    // The op might be a native function, in which case no frame gets pushed,
+                    // `get_overridden_op_result` takes care of both cases.
+                    let old_frame_count = self.call_stack.len();
+                    let iterable = self.clone_register(iterable_register);
+                    let next_result_register = self.next_register()?;
+                    self.registers.push(KValue::Null); // next_result_register
+                    self.registers.push(iterable); // the instance for the call
+                    self.call_overridden_op_1(
+                        Some(next_result_register),
+                        next_result_register + 1,
+                        op,
+                    )?;
+                    match self.get_overridden_op_result(old_frame_count, next_result_register)? {
+                        Null => None,
+                        output => Some(output),
                     }
                 }
                 unexpected => {
@@ -2442,17 +2447,15 @@ impl KotoVm {
         rhs: KValue,
         op: KValue,
     ) -> Result<bool> {
-        self.call_overridden_op_2(None, lhs, rhs, op)?;
-        self.frame_mut().execution_barrier = true;
-        match self.execute_instructions() {
-            Ok(result) => match result {
-                KValue::Bool(result) => Ok(result),
-                unexpected => unexpected_type("Bool", &unexpected),
-            },
-            Err(error) => {
-                self.pop_frame(KValue::Null)?;
-                Err(error)
-            }
+        // The op might be a native function, in which case no frame gets pushed,
+        // `get_overridden_op_result` takes care of both cases.
+        let old_frame_count = self.call_stack.len();
+        let result_register = self.next_register()?;
+        self.registers.push(KValue::Null);
+        self.call_overridden_op_2(Some(result_register), lhs, rhs, op)?;
+        match self.get_overridden_op_result(old_frame_count, result_register)? {
+            KValue::Bool(result) => Ok(result),
+            unexpected => unexpected_type("Bool", &unexpected),
         }
     }
 
@@ -4408,12 +4411,17 @@ mod macros {
             let op = $map.get_meta_value(&$op.into()).unwrap();
 
             // Call the map's op function
+            let old_frame_count = $self.call_stack.len();
             $self.call_overridden_op_2(
                 Some($result_register),
                 $lhs.clone(),
                 $rhs.clone(),
                 op,
             )?;
+            if $self.call_stack.len() == old_frame_count {
+                // A native function was called, its result is already in the result register
+                return Ok(());
+            }
 
             // Execute the function immediately so that we can check for `koto.unimplemented` errors
             // - Enable the execution barrier on the function's frame so errors aren't propagated
